@@ -75,7 +75,15 @@ func parallel(p Prog, body func(g, i, code, arg int)) (panicked string) {
 		}(g)
 	}
 	close(start)
-	wg.Wait()
+	finished := make(chan struct{})
+	go func() { wg.Wait(); close(finished) }()
+	select {
+	case <-finished:
+	case <-time.After(30 * time.Second):
+		// nothing here takes more than milliseconds: goroutines that are still inside an operation
+		// are blocked for good (a lock that was never released)
+		return "operations on distinct keys have not returned after 30 s: some goroutine is blocked inside the structure for good"
+	}
 	if v := pv.Load(); v != nil {
 		return v.(string)
 	}
@@ -356,6 +364,11 @@ func init() {
 		}
 		msgs := peer.Drain()
 		snap := peer.Snapshot()
+		// a retained message whose topic NAME contains a wildcard (the broker stores what clients
+		// send), gossiped by a third node: a merge may refuse it, but must not harm anything else
+		wild := dst.NewNode(8)
+		wild.State.Topics().Set(&packet.Publish{Header: &packet.Header{Retain: true}, Topic: []byte("mp/peer/+"), Payload: []byte("wild")})
+		msgs = append(msgs, wild.Drain()...)
 		n := dst.NewNode(1)
 		type exp struct {
 			sess map[string]bool
@@ -413,10 +426,20 @@ func init() {
 		}); m != "" {
 			return m
 		}
-		for _, m := range msgs {
-			n.Deliver(m)
+		var v dst.View
+		settled := make(chan struct{})
+		go func() {
+			defer close(settled)
+			for _, m := range msgs {
+				n.Deliver(m)
+			}
+			v = dst.ViewOf(n)
+		}()
+		select {
+		case <-settled:
+		case <-time.After(30 * time.Second):
+			return "the node has not returned from merging the peers' broadcasts and listing its state after 30 s: an operation is blocked for good"
 		}
-		v := dst.ViewOf(n)
 		has := func(list []string, prefix string) bool {
 			for _, s := range list {
 				if strings.HasPrefix(s, prefix) {
@@ -445,6 +468,9 @@ func init() {
 					return fmt.Sprintf("replicated state lost retained %s=%s (lists %v)", tp, val, v.Retained)
 				}
 			}
+		}
+		if has(v.Retained, "mp/peer/+=") {
+			cr++ // it arrived before two topics it would match as a filter were stored
 		}
 		if len(v.Sessions) != cs || len(v.Subscriptions) != cu || len(v.Retained) != cr {
 			return fmt.Sprintf("replicated state lists %d/%d/%d sessions/subscriptions/retained, expected %d/%d/%d", len(v.Sessions), len(v.Subscriptions), len(v.Retained), cs, cu, cr)
